@@ -3,9 +3,10 @@
 Shadow model (of the *statement*, not of the code): for every live NeuralUCB / NeuralTS agent the monitor keeps, in
 float64, A = sum of outer products of the gradient features of the arms chosen since the agent's matrix was last
 (re)initialised.  The features are recomputed by the monitor itself: a deep copy of the actor is taken *before* each
-get_action call, the context matrix is pushed through the copy and torch.autograd.grad gives, per arm, the gradient of
-that arm's prediction w.r.t. the copy's output layer (never the agent's `.grad` accumulators, optimizer.zero_grad or
-`exp_layer` pointer).  After every decision and after every other operation (learn, each mutation kind through
+get_action call (the copy of an earlier call is re-used only while an exact fingerprint - module objects, modes, bytes
+of every parameter and buffer - says the actor is still bit for bit what was copied), the context matrix is pushed
+through the copy and torch.autograd.grad gives, per arm, the gradient of that arm's prediction w.r.t. the copy's
+output layer (never the agent's `.grad` accumulators, optimizer.zero_grad or `exp_layer` pointer).  After every decision and after every other operation (learn, each mutation kind through
 Mutations.mutation, clone, save_checkpoint + both load paths) the real `sigma_inv` is compared with the statement:
 
   gram_inverse        ||sigma_inv @ (lambda*I + A) - I||_max <= max(1e-5, 32 * eps_float32 * cond_2(lambda*I + A))
@@ -64,6 +65,10 @@ ASSUMPTIONS = [
     "rest of the sequence stays checkable (counted as stale_exp_layer_repaired_by_harness)",
     "exceptions raised by learn / Mutations.mutation / clone / save / load are other properties' business (counted "
     "as op_failed(info), the case stops); an exception raised by get_action is a C19 witness",
+    "if the monitor itself fails to observe a decision the reference is marked lost (no inverse verdicts until the "
+    "next initialisation) and the run is INCONCLUSIVE (finalize), never held",
+    "every case starts with autograd enabled (a watchdog interrupt inside a torch.no_grad() exit of an earlier case "
+    "of the shard could leave it off); a case that itself ends with autograd disabled is a witness",
 ]
 REQUIRED_COUNTERS = [
     "decisions",
